@@ -141,7 +141,7 @@ func (m *Monitors) userRestore(node, inc int, data string) {
 			return // a follower cannot see the restore before the leader performed it
 		}
 		// first time: the leader is performing the Restore. floor = the supplied snapshot index and its own last index
-		floor = n.store.hi
+		floor = n.store.Hi()
 		for _, c := range m.w.calls {
 			if c.Kind == "restore" && c.Payload == data {
 				if x, _ := c.Extra.(uint64); x > floor {
